@@ -852,15 +852,22 @@ func c16Produce(kind string, x uint64) []pb.Chunk {
 	return chunks
 }
 
-var c16ProduceCache sync.Map
+var c16ProduceCache = struct {
+	sync.Mutex
+	m map[string][]pb.Chunk
+}{m: map[string][]pb.Chunk{}}
 
+// c16Chunks caches the produced chunks; one producer at a time (it changes a
+// package variable of the transport while it runs).
 func c16Chunks(kind string, x uint64) []pb.Chunk {
 	k := fmt.Sprintf("%s/%d", kind, x)
-	if v, ok := c16ProduceCache.Load(k); ok {
-		return v.([]pb.Chunk)
+	c16ProduceCache.Lock()
+	defer c16ProduceCache.Unlock()
+	if v, ok := c16ProduceCache.m[k]; ok {
+		return v
 	}
 	c := c16Produce(kind, x)
-	c16ProduceCache.Store(k, c)
+	c16ProduceCache.m[k] = c
 	return c
 }
 
